@@ -531,13 +531,20 @@ func (db *DB) Row() *sql.Row {
 }
 
 func (db *DB) Rows() (*sql.Rows, error) {
+	tx, rows := db.rows()
+	return rows, tx.Error
+}
+
+// rows runs the query and returns, with the rows, the instance that executed it: a scope may have handed back a
+// session of its own, and the statement, the error and the row count are kept there
+func (db *DB) rows() (*DB, *sql.Rows) {
 	tx := db.getInstance().Set("rows", true)
 	tx = tx.callbacks.Row().Execute(tx)
 	rows, ok := tx.Statement.Dest.(*sql.Rows)
 	if !ok && tx.DryRun && tx.Error == nil {
 		tx.Error = ErrDryRunModeUnsupported
 	}
-	return rows, tx.Error
+	return tx, rows
 }
 
 // Scan scans selected value to the struct dest
@@ -549,7 +556,8 @@ func (db *DB) Scan(dest interface{}) (tx *DB) {
 	tx = db.getInstance()
 	tx.Config = &config
 
-	if rows, err := tx.Rows(); err == nil {
+	var rows *sql.Rows
+	if tx, rows = tx.rows(); tx.Error == nil {
 		if rows.Next() {
 			tx.ScanRows(rows, dest)
 		} else {
